@@ -20,7 +20,7 @@ func VerifC03(args []string) {
 	w.opsFail = true
 	w.logOn = true
 	for _, opts := range vfAllOpts {
-		conf := w.config("keys", opts)
+		conf := w.config(vfRegOf(args), opts)
 		e, err := Compile(conf, src)
 		vfAssert(err == nil && e != nil, "well-formed expression compiles under "+opts)
 		otree, ok := refRead(Dump(e))
